@@ -81,6 +81,7 @@ type state struct {
 	interpBugs    atomic.Int64
 	batches       atomic.Int64
 	suspendedExec atomic.Int64
+	maskedRI      atomic.Int64
 }
 
 func (s *state) problem(format string, a ...any) {
@@ -125,7 +126,7 @@ func signature(pi *cdrive.ProgInfo, label string) string {
 
 // methodText is the source without the fixed helper methods' noise: the whole
 // program (helpers are part of what cgen translated).
-func methodText(pi *cdrive.ProgInfo) string { return pi.P.Src }
+func methodText(pi *cdrive.ProgInfo) string { return pi.Src }
 
 func (s *state) handle(worker int, progs []*cdrive.ProgInfo) {
 	if len(progs) == 0 {
@@ -175,6 +176,7 @@ func (s *state) handle(worker int, progs []*cdrive.ProgInfo) {
 	expect := make([]int, len(b.Progs))
 	for i, pi := range b.Progs {
 		j := cdrive.Enumerate(pi, s.opt)
+		pi.Release()
 		jobs[i] = j
 		script.Section(i, j.Body)
 		expect[i] = 8 * len(j.Want)
@@ -182,12 +184,13 @@ func (s *state) handle(worker int, progs []*cdrive.ProgInfo) {
 		s.notReplayed.Add(j.NotReplayed)
 		s.steps.Add(j.Steps)
 		s.suspendedExec.Add(j.Suspended)
+		s.maskedRI.Add(j.MaskedRI)
 		if j.CappedExec || j.CappedStates || j.CappedTuples {
 			s.cappedProgs.Add(1)
 		}
 		if len(j.InterpBugs) > 0 {
 			s.interpBugs.Add(int64(len(j.InterpBugs)))
-			s.problem("interpreter self-check: %s\n%s", j.InterpBugs[0], pi.P.Src)
+			s.problem("interpreter self-check: %s\n%s", j.InterpBugs[0], pi.Src)
 		}
 		s.mu.Lock()
 		for k, v := range j.Statuses {
@@ -221,13 +224,13 @@ func (s *state) handle(worker int, progs []*cdrive.ProgInfo) {
 			s.mu.Lock()
 			s.crashKinds[cfg.Name+" "+c.Kind]++
 			if len(s.crashSamples) < 6 {
-				s.crashSamples = append(s.crashSamples, map[string]any{"family": pi.Family, "tags": pi.Tags, "configuration": cfg.Name, "kind": c.Kind, "stderr": c.Stderr, "program": pi.P.Src})
+				s.crashSamples = append(s.crashSamples, map[string]any{"family": pi.Family, "tags": pi.Tags, "configuration": cfg.Name, "kind": c.Kind, "stderr": c.Stderr, "program": pi.Src})
 			}
 			s.mu.Unlock()
 			if c.Kind == "watchdog" {
-				s.r.Violation(fmt.Sprintf("%s|c-hang|%s", pi.Family, strings.Join(cdrive.Constructs(pi.P.Src), ",")),
+				s.r.Violation(fmt.Sprintf("%s|c-hang|%s", pi.Family, strings.Join(cdrive.Constructs(pi.Src), ",")),
 					"the compiled C did not finish a program whose every execution terminates in the reference interpreter",
-					Witness{Family: pi.Family, Tags: pi.Tags, Program: pi.P.Src, Config: cfg.Name, Note: c.Stderr})
+					Witness{Family: pi.Family, Tags: pi.Tags, Program: pi.Src, Config: cfg.Name, Note: c.Stderr})
 				continue
 			}
 			crashed[c.Prog] = true
@@ -277,7 +280,7 @@ func (s *state) handle(worker int, progs []*cdrive.ProgInfo) {
 		s.mu.Lock()
 		s.famPrograms[pi.Family]++
 		s.famCompared[pi.Family] += int64(len(j.Want))
-		for _, c := range cdrive.Constructs(pi.P.Src) {
+		for _, c := range cdrive.Constructs(pi.Src) {
 			s.constructs[c]++
 		}
 		take := s.sampleFam[pi.Family] < 1 && len(j.Want) > 1
@@ -287,7 +290,7 @@ func (s *state) handle(worker int, progs []*cdrive.ProgInfo) {
 		s.mu.Unlock()
 		if take {
 			h, c := j.History(len(j.Want) - 1)
-			s.r.Sample(map[string]any{"family": pi.Family, "program_sha1": pi.P.ID, "tags": pi.Tags, "source": pi.P.Src,
+			s.r.Sample(map[string]any{"family": pi.Family, "program_sha1": pi.ID, "tags": pi.Tags, "source": pi.Src,
 				"executions_compared": len(j.Want), "receiver_states": j.RecvStates, "last_history": fmt.Sprint(h), "last_call": c.String()})
 		}
 	}
@@ -307,7 +310,7 @@ func (s *state) noteRejected(b *cdrive.Batch) {
 		}
 		s.r.HistAdd("cgen_rejected_accepted_program (C11)", pi.Family+": "+firstLine(pi.GenErr), 1)
 		if len(s.genRejected) < 5 {
-			s.genRejected = append(s.genRejected, pi.GenErr+"\n"+pi.P.Src)
+			s.genRejected = append(s.genRejected, pi.GenErr+"\n"+pi.Src)
 		}
 		pi.GenErr = ""
 	}
@@ -317,7 +320,7 @@ func (s *state) noteRejected(b *cdrive.Batch) {
 		}
 		s.r.HistAdd("c_compiler_rejected_generated_c (C11)", pi.Family, 1)
 		if len(s.gccRejected) < 5 {
-			s.gccRejected = append(s.gccRejected, pi.GccErr+"\n"+pi.P.Src)
+			s.gccRejected = append(s.gccRejected, pi.GccErr+"\n"+pi.Src)
 		}
 		pi.GccErr = ""
 	}
@@ -341,10 +344,10 @@ func (s *state) report(b *cdrive.Batch, cfg cdrive.Config, prog int, j *cdrive.J
 	calls := append(append([]interp.CallSpec{}, hist...), call)
 	div, prob := b.Diagnose(cfg, prog, calls)
 	if div == nil {
-		s.problem("digest mismatch did not reproduce with full traces (%s, %s, history %v, call %s): %s\n%s", cfg.Name, pi.Family, hist, call.String(), prob, pi.P.Src)
+		s.problem("digest mismatch did not reproduce with full traces (%s, %s, history %v, call %s): %s\n%s", cfg.Name, pi.Family, hist, call.String(), prob, pi.Src)
 		return
 	}
-	w := Witness{Family: pi.Family, Tags: pi.Tags, Program: pi.P.Src, Config: cfg.Name, History: hist, Call: call,
+	w := Witness{Family: pi.Family, Tags: pi.Tags, Program: pi.Src, Config: cfg.Name, History: hist, Call: call,
 		Item: div.Label, C: div.C, Interp: div.Interp, CTrace: div.CText, ITrace: div.IText, DivergesAt: div.Call}
 	what := fmt.Sprintf("generated C (%s) and the reference semantics disagree on %s after call %d of the history: C %s, Wuffs %s", cfg.Name, div.Label, div.Call, div.C, div.Interp)
 	s.r.Violation(signature(pi, div.Label), what, w)
@@ -430,7 +433,7 @@ func main() {
 	fams := map[string]any{}
 	var generated, accepted int64
 	for n, fc := range ws.Families {
-		fams[n] = map[string]any{"generated": fc.Generated, "accepted": fc.Accepted, "rejected": fc.Rejected, "levels": fc.Levels,
+		fams[n] = map[string]any{"generated": fc.Generated, "accepted": fc.Accepted, "rejected": fc.Rejected, "levels": fc.Levels, "accepted_per_level": fc.KeptPerLevel,
 			"programs_run_as_c": s.famPrograms[n], "trace_comparisons": s.famCompared[n], "skipped_by_budget": fc.SkippedBudget}
 		generated += fc.Generated
 		accepted += fc.Accepted
@@ -440,6 +443,9 @@ func main() {
 	}
 	for _, p := range ws.Problems {
 		s.problem("%s", p)
+	}
+	if fc := ws.Families["extras"]; fc != nil && fc.Rejected > 0 {
+		s.problem("%d hand-written programs of the extras family are rejected by the checker", fc.Rejected)
 	}
 	r.MergeHist("constructs_in_compared_programs", s.constructs)
 	r.MergeHist("statuses_returned", s.statuses)
@@ -471,15 +477,16 @@ func main() {
 		Extra: map[string]any{
 			"families": fams, "programs_generated": generated, "programs_accepted": accepted,
 			"interpreter_executions": s.executions.Load(), "interpreter_statements": s.steps.Load(),
-			"executions_not_replayed_because_the_interpreter_found_a_safety_violation (C01)": s.notReplayed.Load(),
-			"executions_ending_in_a_suspension":                                              s.suspendedExec.Load(),
-			"programs_with_capped_exploration":                                               s.cappedProgs.Load(),
-			"programs_whose_signature_the_driver_cannot_call":                                s.unsupported.Load(),
-			"digest_mismatches":                                                              s.mismatches.Load(),
-			"batches":                                                                        s.batches.Load(),
-			"configurations":                                                                 cfgNames,
-			"c_compile_seconds":                                                              s.compileSec,
-			"pch_seconds":                                                                    s.tools.PchSeconds,
+			"executions_not_replayed_because_the_interpreter_found_a_safety_violation (C01)":                            s.notReplayed.Load(),
+			"executions_whose_reader_position_is_not_compared (suspended inside a partially available multi-byte read)": s.maskedRI.Load(),
+			"executions_ending_in_a_suspension":               s.suspendedExec.Load(),
+			"programs_with_capped_exploration":                s.cappedProgs.Load(),
+			"programs_whose_signature_the_driver_cannot_call": s.unsupported.Load(),
+			"digest_mismatches":                               s.mismatches.Load(),
+			"batches":                                         s.batches.Load(),
+			"configurations":                                  cfgNames,
+			"c_compile_seconds":                               s.compileSec,
+			"pch_seconds":                                     s.tools.PchSeconds,
 			"worker_seconds_by_phase": map[string]float64{"cgen": float64(s.phaseNs[0].Load()) / 1e9, "c_compile": float64(s.phaseNs[1].Load()) / 1e9,
 				"interpreter_exploration": float64(s.phaseNs[2].Load()) / 1e9, "c_run_and_compare": float64(s.phaseNs[3].Load()) / 1e9},
 			"exploration_caps":             s.opt,
